@@ -4,31 +4,40 @@
 
 use std::hash::Hasher;
 
-/// Capacity of the recorded hasher input, in bytes.
+/// Capacity of the recorded hasher input, in bytes (12 words).
 pub const REC_CAP: usize = 96;
 /// Capacity of the recorded call marks.
 pub const MARK_CAP: usize = 24;
 
 /// A `Hasher` that records exactly what it is fed.
 ///
-/// * `bytes[..n]` is the flat byte stream (what a streaming hasher such as SipHash sees): two
-///   values whose flat streams are equal collide under *every* hasher that only looks at the
-///   concatenated bytes, and values whose flat streams differ are not systematic collisions.
+/// * the flat byte stream (what a streaming hasher such as SipHash sees), packed little-endian
+///   into `words`, `n` bytes long: two values whose flat streams are equal collide under *every*
+///   hasher that only looks at the concatenated bytes, and values whose flat streams differ are
+///   not systematic collisions;
 /// * `marks[..m]` additionally records the call structure (kind of `write_*` call and its
 ///   length): equal values must agree on this too, otherwise a call-structure-sensitive hasher
 ///   (ahash is one) may split them.
+///
+/// The recorder itself is loop-free except for `write(&[u8])` (bounded by the slice length), so
+/// that harnesses can run with a small global unwinding bound - the code under test contains
+/// `sort_unstable`, whose internal loops are unrolled up to that bound.
 #[derive(Clone, Copy)]
 pub struct Rec {
-    pub bytes: [u8; REC_CAP],
+    pub words: [u64; 12],
     pub n: usize,
     pub marks: [u8; MARK_CAP],
     pub m: usize,
     pub overflow: bool,
 }
 
+macro_rules! all_eq {
+    ($a:expr, $b:expr; $($i:literal),*) => { true $(&& $a[$i] == $b[$i])* };
+}
+
 impl Rec {
     pub fn new() -> Self {
-        Rec { bytes: [0; REC_CAP], n: 0, marks: [0; MARK_CAP], m: 0, overflow: false }
+        Rec { words: [0; 12], n: 0, marks: [0; MARK_CAP], m: 0, overflow: false }
     }
     fn mark(&mut self, k: u8) {
         if self.m < MARK_CAP {
@@ -40,48 +49,33 @@ impl Rec {
     }
     fn push(&mut self, b: u8) {
         if self.n < REC_CAP {
-            self.bytes[self.n] = b;
+            self.words[self.n >> 3] |= (b as u64) << ((self.n & 7) * 8);
             self.n += 1;
         } else {
             self.overflow = true;
         }
     }
-    fn push_all(&mut self, bs: &[u8]) {
-        let mut i = 0;
-        while i < bs.len() {
-            self.push(bs[i]);
-            i += 1;
-        }
+    fn push2(&mut self, v: u16) {
+        self.push(v as u8);
+        self.push((v >> 8) as u8);
     }
-    /// Flat byte streams equal.
+    fn push4(&mut self, v: u32) {
+        self.push2(v as u16);
+        self.push2((v >> 16) as u16);
+    }
+    fn push8(&mut self, v: u64) {
+        self.push4(v as u32);
+        self.push4((v >> 32) as u32);
+    }
+    /// Flat byte streams equal (unused tail bytes are zero in both).
     pub fn same_bytes(&self, o: &Rec) -> bool {
-        if self.n != o.n {
-            return false;
-        }
-        let mut i = 0;
-        let mut eq = true;
-        while i < self.n {
-            if self.bytes[i] != o.bytes[i] {
-                eq = false;
-            }
-            i += 1;
-        }
-        eq
+        self.n == o.n && all_eq!(self.words, o.words; 0, 1, 2, 3, 4, 5, 6, 7, 8, 9, 10, 11)
     }
     /// Flat byte streams and call structure equal.
     pub fn same_calls(&self, o: &Rec) -> bool {
-        if !self.same_bytes(o) || self.m != o.m {
-            return false;
-        }
-        let mut i = 0;
-        let mut eq = true;
-        while i < self.m {
-            if self.marks[i] != o.marks[i] {
-                eq = false;
-            }
-            i += 1;
-        }
-        eq
+        self.same_bytes(o)
+            && self.m == o.m
+            && all_eq!(self.marks, o.marks; 0, 1, 2, 3, 4, 5, 6, 7, 8, 9, 10, 11, 12, 13, 14, 15, 16, 17, 18, 19, 20, 21, 22, 23)
     }
 }
 
@@ -91,7 +85,11 @@ impl Hasher for Rec {
     }
     fn write(&mut self, bytes: &[u8]) {
         self.mark(0x80 | (bytes.len() as u8 & 0x7f));
-        self.push_all(bytes);
+        let mut i = 0;
+        while i < bytes.len() {
+            self.push(bytes[i]);
+            i += 1;
+        }
     }
     fn write_u8(&mut self, i: u8) {
         self.mark(1);
@@ -99,19 +97,19 @@ impl Hasher for Rec {
     }
     fn write_u16(&mut self, i: u16) {
         self.mark(2);
-        self.push_all(&i.to_le_bytes());
+        self.push2(i);
     }
     fn write_u32(&mut self, i: u32) {
         self.mark(4);
-        self.push_all(&i.to_le_bytes());
+        self.push4(i);
     }
     fn write_u64(&mut self, i: u64) {
         self.mark(8);
-        self.push_all(&i.to_le_bytes());
+        self.push8(i);
     }
     fn write_usize(&mut self, i: usize) {
         self.mark(9);
-        self.push_all(&i.to_le_bytes());
+        self.push8(i as u64);
     }
 }
 
